@@ -570,6 +570,24 @@ def calls_in(node: ast.AST, name: str | None = None, base: str | None = None):
     return res
 
 
+_LOG_METHODS = {'log_debug', 'log_info', 'log_warning', 'log_error', 'log_msg'}
+_LOGGER_METHODS = {'debug', 'info', 'warning', 'error', 'critical', 'exception', 'log'}
+
+
+def is_logging_call(call: ast.AST) -> bool:
+    """A call of the block logging helpers or of a module logger (assumption A6: logging does not
+    raise and has no effect on the circuit)."""
+    if not isinstance(call, ast.Call) or not isinstance(call.func, ast.Attribute):
+        return False
+    if call.func.attr in _LOG_METHODS:
+        return True
+    return call.func.attr in _LOGGER_METHODS and norm(call.func.value) in ('_logger', 'logging', 'logger')
+
+
+def is_logging_stmt(st: ast.AST) -> bool:
+    return isinstance(st, ast.Expr) and is_logging_call(st.value)
+
+
 def is_super_call(call: ast.AST, name: str | None = None) -> bool:
     return (isinstance(call, ast.Call) and isinstance(call.func, ast.Attribute)
             and isinstance(call.func.value, ast.Call)
